@@ -29,6 +29,7 @@ ASSUMPTIONS = ['forward-mode kernels are correct up to 2D coefficients (checked 
 
 CURVES = {'quick': [(1, 1), (2, 1), (3, 2)], 'thorough': [(1, 1), (2, 1), (3, 2), (4, 3)]}
 CURVES_D2_QUICK = [(2, 1), (3, 2)]       # depth-2 programs in the quick tier
+MULTI_CURVE = {'quick': (2, 1), 'thorough': (3, 2)}     # several independents / dependents: depth-2 programs on this curve only
 CHUNK = 40
 
 
@@ -107,6 +108,8 @@ def run_program(prog, depth, tier, seed, curves=None, modes=None):
             runs.append(('dense1', lambda: AD.check_dense(prog, xdata, seed + 17, K=1)))
         if tier == 'thorough' and depth <= 1 and P == 1:
             runs.append(('basis', lambda: AD.check_basis(prog, xdata)))
+        if (D, P) == MULTI_CURVE[tier] or (depth != 2 and D > 1):
+            runs.append(('multi', lambda: AD.check_multi(prog, xdata, seed + 5)))
         for mode, fn in runs:
             if modes is not None and mode not in modes:
                 continue
